@@ -24,6 +24,7 @@ import logging
 
 from ..translate import c07 as tr
 from ..translate import c07ctx as cx
+from ..translate import corevm as cvt
 
 PROPERTY = "C07"
 THEOREM_MODULE = "NemoVerif.Theorems.C07"
@@ -52,6 +53,7 @@ FAIL = 100  # event FAIL+i makes flow f<i> fail (ops awaitf / whenf only)
 # when2: the top-level `or` of the formula is spelled as two cases `when g1 / send Hit()` `or when g2 / send Hit2()`
 OPS = ["match", "await", "when", "whenmix", "awaitf", "whenf", "when2", "whenfe"]
 # ops whose atoms are all flows and whose statement is one group: compared with the flow-level machine `GroupFlow` (T3)
+COREVM_SEQS = 8  # sequences per match case that are also run through CoreVM
 FAIL_OPS = ("awaitf", "whenf", "whenfe")
 FLOW_OPS = ("await", "when", "awaitf", "whenf", "whenfe")
 
@@ -661,13 +663,19 @@ def run_e2e(case):
         obs["main_after_start"] = _main_status(st)
         obs["heads_init"] = _heads(st)
         obs["kids_init"] = _kids(st)
+        if case["op"] == "match":
+            # the expanded program as data for the whole-interpreter model CoreVM (import-only, Models/CoreVM)
+            try:
+                obs["prog"] = cvt.program_to_json(st)
+            except Exception as e:  # noqa
+                obs["prog_exc"] = f"{type(e).__name__}: {e}"[:200]
     except Exception as e:  # noqa
         obs["build_exc"] = f"{type(e).__name__}: {e}"[:300]
         return obs
     runs = []
     for seq in case["seqs"]:
         s = copy.deepcopy(st)
-        hits, extra, exc, which, heads, fails, kids, mains = [], set(), None, [], [], [], [], []
+        hits, extra, exc, which, heads, fails, kids, mains, nch = [], set(), None, [], [], [], [], [], []
         import random as _random
 
         _CH["rng"] = _random.Random(json.dumps([case["g"], seq]))
@@ -690,10 +698,11 @@ def run_e2e(case):
                     extra.update(e.get("type") for e in s.outgoing_events if e.get("type") not in ("Hit", "Hit2"))
                     if case["op"] == "match":
                         heads.append(_heads(s))
+                        nch.append(len(_CH["log"]))
         except Exception as e:  # noqa
             exc = f"{type(e).__name__}: {e}"[:200]
         runs.append({"hits": hits, "which": which, "extra": sorted(extra), "exc": exc, "main": _main_status(s), "heads": heads, "choices": list(_CH["log"]),
-                     "fails": fails, "kids": kids, "mains": mains})
+                     "fails": fails, "kids": kids, "mains": mains, "nch": nch})
     obs["runs"] = runs
     return obs
 
@@ -805,6 +814,15 @@ def model_requests(case, obs):
     if case["op"] == "match" and "runs" in obs:
         # head-level machine with the tie-breaks the interpreter drew
         reqs.append({"m": "C07.vm", "g": obs["g_seen"], "seqs": case["seqs"], "choices": [r["choices"] for r in obs["runs"]]})
+    if case["op"] == "match" and "runs" in obs and "prog" in obs:
+        # CoreVM (the whole-interpreter model) on the same expanded program, same events, same tie-breaks: GroupVM ⇔ CoreVM by execution
+        for seq, r in list(zip(case["seqs"], obs["runs"]))[:COREVM_SEQS]:
+            evs = [{"ev": {"kind": "internal", "name": "StartFlow", "args": [["flow_id", {"s": "main"}]]}, "choices": []}]
+            prev = 0
+            for a, n in zip(seq, r["nch"]):
+                evs.append({"ev": {"kind": "plain", "name": ev_name(a), "args": []}, "choices": r["choices"][prev:n]})
+                prev = n
+            reqs.append({"m": "CoreVMJson.run", "prog": obs["prog"], "events": evs, "fuel": 400})
     if case["op"] in FLOW_OPS and "runs" in obs:
         # flow-level machine (child flows, Finished / Failed, failure path, clean-up of the losers)
         reqs.append({"m": "C07.flow", "g": obs["g_seen"], "seqs": case["seqs"]})
@@ -932,6 +950,39 @@ def compare(case, obs, mouts):
                     return f"sequence {seq} event {k}: head-level model marker {step['m']}, implementation hits {run['hits']} (tie-breaks {run['choices']})"
                 if sorted(step["heads"]) != hreal:
                     return f"sequence {seq} event {k}: heads (position, status) implementation {hreal}, head-level model {sorted(step['heads'])} (tie-breaks {run['choices']})"
+        # GroupVM against CoreVM
+        for seq, run, tr, cvm in zip(case["seqs"], obs["runs"], v["runs"], mouts[2:]):
+            msg = corevm_vs_groupvm(seq, run, tr, cvm, v["init"])
+            if msg:
+                return msg
+    return None
+
+
+def corevm_heads(d):
+    """heads of the main flow in a CoreVM digest as [position - 1, status code], sorted"""
+    code = {"active": 0, "merging": 1, "inactive": 2}
+    for i in d.get("insts", []):
+        if i[1] == "main":
+            return sorted([h[0] - 1, code.get(h[1], 9)] for h in i[5])
+    return None
+
+
+def corevm_vs_groupvm(seq, run, tr, cvm, init):
+    """per event: CoreVM's main-flow heads and marker = GroupVM's (a digest with res != ok: CoreVM could not follow, not compared)"""
+    if not isinstance(cvm, list) or not cvm or any(d.get("res") != "ok" for d in cvm):
+        return None
+    if len(cvm) != len(seq) + 1:
+        return f"sequence {seq}: CoreVM processed {len(cvm) - 1} of {len(seq)} events"
+    if corevm_heads(cvm[0]) != sorted(init):
+        return f"heads after the group statement was reached: CoreVM {corevm_heads(cvm[0])}, head-level model {sorted(init)}"
+    for k, (step, d) in enumerate(zip(tr, cvm[1:])):
+        hit = sum(1 for o in d.get("out", []) if o[0] == "Hit")
+        if hit != (1 if step["m"] else 0):
+            return f"sequence {seq} event {k}: CoreVM emits {hit} markers, head-level model {step['m']} (tie-breaks {run['choices']})"
+        if corevm_heads(d) != sorted(step["heads"]):
+            return f"sequence {seq} event {k}: heads (position, status) CoreVM {corevm_heads(d)}, head-level model {sorted(step['heads'])} (tie-breaks {run['choices']})"
+        if d.get("choices_left", 0) != 0:
+            return f"sequence {seq} event {k}: CoreVM left {d.get('choices_left')} recorded tie-breaks unused"
     return None
 
 
@@ -1098,6 +1149,8 @@ def tags(case, obs):
     if case["kind"] == "e2e":
         t.append("op:" + case["op"])
         t.append(f"seqs:{len(case['seqs'])}")
+        if "prog" in obs:
+            t.append("corevm-prog")
         if "runs" in obs:
             n_hit = sum(1 for r in obs["runs"] if 1 in r["hits"])
             t.append("some-complete" if n_hit else "none-complete")
